@@ -187,7 +187,7 @@ class Strings(SubCheck):
         s = case["s"]
         tol = 1e-9 * max(1.0, af.norm(exp))
         try:
-            m = self.svg.Matrix(s)
+            m = out.keep(self.svg.Matrix(s))
             got = mat_of(m)
         except Exception as e:  # noqa
             out.fail("Matrix(%r) raised %s" % (s, type(e).__name__), list(exp), repr(e), kind="exception", s=s)
@@ -270,7 +270,7 @@ class Units(SubCheck):
         tol = 1e-9 * max(1.0, af.norm(exp))
         tags = dict(kind="units", form=case["form"], u1=case["u1"], u2=case["u2"], wrap=case["wrap"], pos=case["pos"], s=s)
         try:
-            m = self.svg.Matrix(s, **r)
+            m = out.keep(self.svg.Matrix(s, **r))
             got = (float(m.a), float(m.b), float(m.c), float(m.d), m.e, m.f)
         except Exception as e:  # noqa
             out.fail("Matrix(%r, **%r) raised %s" % (s, r, type(e).__name__), list(exp), repr(e), exc=type(e).__name__,
